@@ -264,8 +264,47 @@ def r5(ctx):
         ctx.ok(rule, "assign_implicit_tags", detail)
 
 
+WHOLE_TAG_ORDER = ("sort", "sort_unstable", "min", "max", "cmp", "partial_cmp", "lt", "le", "gt", "ge")
+KEYED_ORDER = ("sort_by_key", "sort_unstable_by_key", "sort_by_cached_key", "min_by_key", "max_by_key", "sort_by", "sort_unstable_by",
+               "min_by", "max_by", "is_sorted_by_key")
+
+
+def r6(ctx):
+    rule = "C16.R6"
+    ctx.rule(rule, "one canonical order: the tag an untagged CHOICE counts as (its smallest alternative, X.680 8.6 / X.691 23) is chosen "
+                   "with the total order of Tag itself (`sort` / `min` over Tag values: class first, then number - C16.R1) and not "
+                   "with an ad-hoc key or comparator over part of the tag")
+    P = ctx.program()
+    bs = [b for b in P.find("asn1rs_model", "TagResolver::<'_>::resolve_type_tag_at_depth") if b.def_kind == "AssocFn"]
+    if len(bs) != 1:
+        ctx.fail(rule, "anchor-lost:resolve_type_tag_at_depth", "matched %d bodies" % len(bs))
+        return
+    b = bs[0]
+    whole, keyed = [], []
+    for body in [b] + P.closures_of(b):
+        for cs in body.calls():
+            full = (cs.fn or {}).get("full") or ""
+            if "tag::Tag" not in full and not any("tag::Tag" in t for t in cs.term.get("argtys", [])):
+                continue
+            if cs.name in KEYED_ORDER:
+                keyed.append(cs)
+            elif cs.name in WHOLE_TAG_ORDER:
+                whole.append(cs)
+    detail = {"function": b.path, "whole_tag_order": [c.loc() + " " + c.name for c in whole], "keyed_order": [c.loc() + " " + c.name for c in keyed]}
+    if keyed:
+        ctx.fail(rule, "choice-smallest-tag", "the alternatives' tags are ordered with `%s` (a key / comparator chosen at the call site) "
+                                              "instead of Tag's own order: the class is no longer compared before the number" % keyed[0].name,
+                 keyed[0].loc(), detail)
+    elif not whole:
+        ctx.fail(rule, "choice-smallest-tag", "no ordering of the alternatives' tags is left in resolve_type_tag_at_depth: an untagged CHOICE "
+                                              "no longer counts as its smallest alternative", "%s:%d" % (b.file, b.line), detail)
+    else:
+        ctx.ok(rule, "choice-smallest-tag", detail)
+
+
 def run(ctx):
     r1(ctx)
     r2_r3(ctx)
     r4(ctx)
     r5(ctx)
+    r6(ctx)
